@@ -181,3 +181,8 @@ def _ugb(cls):
 
 _ugb("SMPSO")
 _ugb("PSOGA")
+
+# OMOPSO.update_global_best (sort the swarm, append its first front to the leaders, truncate, extend the external archive) was
+# attempted with the same invariants as Archive.__iadd__: 123 of 137 obligations were discharged, the remaining ones (archive
+# well-formedness carried across the assumed sorter contract) stayed undecided, so the function is NOT under contract; the
+# leader-archive bound for OMOPSO is covered by the bounded whole-run scenarios only.
